@@ -19,6 +19,24 @@ CLAIMS = {
         "DESIGN.md §3 C16",
     ),
 }
+CLAIMS["C10"] = (
+    "effect / ownership analysis: frozen-decorator check, receiver classification of every attribute write and frozen-bypass call, in-place mutation scan, purity of generated code",
+    "Static analysis of all non-legacy modules: every node class is a frozen dataclass without __setattr__ overrides; every attribute "
+    "store / object.__setattr__ / setattr / __dict__ write is classified by receiver and none targets an existing node; no in-place "
+    "container mutation goes through a node attribute; the generated accessors contain no store. A frame condition is a who-may-write "
+    "statement, so deciding it over all write sites covers every operation sequence; mutation through user-defined property objects is not decided.",
+    "Assumes dataclasses' frozen semantics; receivers are classified from annotations, bindings and an audited two-entry table of fresh locals.",
+    "DESIGN.md §3 C10",
+)
+CLAIMS["C12"] = (
+    "partial evaluation of the codegen templates over the finite field-descriptor domain + exhaustive truth tables of the skip flags + sibling comparison with the static variant",
+    "The text templates of codegen.py are partially evaluated for every field descriptor (name kind x compare x init, collection or single); the "
+    "emitted fragments are parsed and decided: all 32 flag rows for each of 16 descriptors (generated and static variant), identity presence test, "
+    "enumeration shape, sort key and mapping order, exhaustive re-installation on subclasses. This covers every class a user can define because "
+    "a fragment depends on the descriptor only; the order of dataclasses.fields is assumed.",
+    "Assumes CPython dataclass field order and dict insertion order; template evaluator handles the string-builder idioms listed in DESIGN.md Appendix C.",
+    "DESIGN.md §3 C12",
+)
 PENDING = "check not built yet (work in progress; see DESIGN.md for the planned static rules)"
 
 checks = []
